@@ -4,7 +4,7 @@ sys.path.insert(0, os.path.dirname(os.path.abspath(__file__)))
 import framework
 from framework import run_property
 import bbs_tables as T
-import rf_hash, rf_gates, rf_consts
+import rf_hash, rf_gates, rf_consts, rf_panic, rf_frame
 
 BBS_SCOPE = ('bbsplus::', 'utils::util::bbsplus_utils', 'utils::message::bbsplus_message')
 
@@ -75,6 +75,48 @@ def P(pid):
         meta['explanation'] = ('Domain separation decided as constant propagation: from every public entry point exactly the interface\'s '
                                'api id (and the BLIND_ prefix for blind generators) reaches every DST / seed role; the two suites differ in '
                                'every interface constant. Disjointness of hash-to-curve outputs is assumed, not decided.')
+    elif pid == 'C08':
+        R = [
+            ('RF-F panic-site census', rf_panic.rule_panic_census, 150),
+            ('RF-F allocation bounded by input size', rf_panic.rule_alloc_bounded, 15),
+        ]
+        meta['explanation'] = ('Every panic-capable MIR site (bounds / overflow asserts, slice range indexing, unwrap/expect, CtOption::unwrap, '
+                               'copy_from_slice, explicit panics) in every function reachable from the 21 untrusted-input entry points and the derived '
+                               'Deserialize impls is proven safe by a difference-bound length domain, turned into a precondition re-checked at every '
+                               'call site up to the entry points, or discharged by an audited entry whose structural fingerprint is recomputed. '
+                               'Generator counts / allocations must be bounded by input lengths. Termination of library code and wall time are not decided.')
+        meta['assumptions'] = ['slice/Vec lengths are bounded by isize::MAX / size_of(element)', 'external crates do not panic on the paths used (contracts in audit.py)']
+    elif pid == 'C09':
+        R = [
+            ('RF-E decoder framing', rf_frame.rule_decoder_framing, 7),
+            ('RF-D identity / zero exclusion in decoders', lambda c: rf_gates.rule_accept_requirements(c, T.DECODER_REQS), 6),
+        ]
+        meta['explanation'] = ('Decides completely the length clause: the set of input lengths each decoder can accept, computed from difference-bound '
+                               'facts and modular guards at its accept sites through delegated decoders, equals the tabled framing. Decides as necessary '
+                               'conditions: acceptance is gated by the checked constructors and by identity / zero exclusion. Round-trip value equality is not decided.')
+    elif pid == 'C10':
+        R = [
+            ('RF-L limit guards', rf_frame.rule_limit_guards, 3),
+            ('A5 constants equal the drafts', rf_consts.rule_ciphersuite_constants, 30),
+            ('RF-C ingredient sets and length prefixes', lambda c: rf_hash.rule_hash_binding(c, rf_hash.BBS_TABLE, BBS_SCOPE), 60),
+            ('RF-C I2OSP widths', rf_hash.rule_i2osp_width, 8),
+            ('RF-S no shared state (schedule quantifier)', rf_consts.rule_shared_state, 3),
+        ]
+        meta['explanation'] = ('Value-level conformance with the drafts cannot be decided statically and is not claimed. Decided clauses: the three size '
+                               'limits are enforced exactly (boundary values proven), constants equal the draft table, every hash ingredient set and '
+                               'un-narrowed length prefix of width 8 (2 for key_info) is present, and the crate has no shared mutable state, so results '
+                               'cannot depend on thread interleavings.')
+    elif pid == 'C12':
+        R = [
+            ('RF-L update_index guard and generator offset', rf_frame.rule_update_index_guard, 2),
+            ('RF-B interface constants of update_signature', lambda c: rf_consts.rule_interface_constants(c, [T.SIG + 'update_signature', T.SIG + 'sign']), 6),
+            ('RF-S no shared state (history quantifier)', rf_consts.rule_shared_state, 3),
+            ('RF-F update_signature panic census', lambda c: rf_panic.rule_panic_census(c, entries=[T.SIG + 'update_signature'], with_serde=False, min_functions=8), 12),
+        ]
+        meta['explanation'] = ('Decides completely: a signature is returned only if update_index < n (boundary proven both ways) and the generator '
+                               'selected is values[update_index + 1] as in sign/verify; update_signature reaches the same interface constants as sign; '
+                               'the crate has no state besides arguments, so a history of updates is a composition of single steps. The group algebra '
+                               '(A\' = B\'/(sk+e)) and wrong-old-value behaviour are not decided.')
     return R, meta
 
 
